@@ -2,6 +2,10 @@ package checks
 
 import (
 	"fmt"
+	bcrpb "github.com/google/fhir/go/proto/google/fhir/proto/r4/core/resources/bundle_and_contained_resource_go_proto"
+	opb "github.com/google/fhir/go/proto/google/fhir/proto/r4/core/resources/observation_go_proto"
+	"github.com/verily-src/fhirpath-go/fhirpath/compopts"
+	"google.golang.org/protobuf/types/known/anypb"
 	"sort"
 	"strings"
 
@@ -303,8 +307,8 @@ func init() {
 	}
 
 	core.Register(&core.Check{
-		ID: "C12",
-		Rule: "subjects: for every resource of the schema-covering family, one element per distinct message descriptor reached (declared FHIR type derived from the schema position: primitive -> lowerCamel name, *Code wrappers -> code, nested component of a resource -> BackboneElement, of a datatype -> Element, choice wrappers looked through) plus raw choice wrappers, plus System values from literals, arithmetic and functions; type specifiers: every resource name, every complex datatype name, the 19 primitive names in lower- and upper-case spelling, Element, BackboneElement, Resource, DomainResource and the System names, each unqualified and with FHIR. / System. (quick: the full set for resource roots and System values, the ancestor chain plus 42 fixed names for inner elements; thorough: the full set for every descriptor); x is T compared with a hand-written R4 parent table, x as T must be x itself or empty; malformed specifiers must be rejected by Compile; non-trivial = distinct (subject, specifier, outcome)",
+		ID:          "C12",
+		Rule:        "subjects: for every resource of the schema-covering family, one element per distinct message descriptor reached (declared FHIR type derived from the schema position: primitive -> lowerCamel name, *Code wrappers -> code, nested component of a resource -> BackboneElement, of a datatype -> Element, choice wrappers looked through) plus raw choice wrappers, plus System values from literals, arithmetic and functions; type specifiers: every resource name, every complex datatype name, the 19 primitive names in lower- and upper-case spelling, Element, BackboneElement, Resource, DomainResource and the System names, each unqualified and with FHIR. / System. (quick: the full set for resource roots and System values, the ancestor chain plus 42 fixed names for inner elements; thorough: the full set for every descriptor); x is T compared with a hand-written R4 parent table, x as T must be x itself or empty; malformed specifiers must be rejected by Compile; non-trivial = distinct (subject, specifier, outcome)",
 		Assumptions: []string{"R4 parent table in checks/c12.go (primitive specialisations, Quantity specialisations, BackboneElement-derived datatypes, Bundle/Binary/Parameters under Resource)"},
 		Subs: func(tier string) []core.Sub {
 			names := lib.ResourceTypeNames()
@@ -356,6 +360,44 @@ func init() {
 						if err != nil {
 							continue
 						}
+						// contained resources are reached through navigation only (they are packed): each is of its resource type
+						if cf := res.ProtoReflect().Descriptor().Fields().ByName("contained"); cf != nil && cf.IsList() {
+							cl := res.ProtoReflect().Get(cf).List()
+							for k := 0; k < cl.Len(); k++ {
+								a, okA := cl.Get(k).Message().Interface().(*anypb.Any)
+								cr := &bcrpb.ContainedResource{}
+								if !okA || a.UnmarshalTo(cr) != nil {
+									continue
+								}
+								of := cr.ProtoReflect().WhichOneof(cr.ProtoReflect().Descriptor().Oneofs().ByName("oneof_resource"))
+								if of == nil {
+									continue
+								}
+								inner := string(of.Message().Name())
+								path := fmt.Sprintf("%s.contained[%d]", tn, k)
+								isDomain := inner != "Binary" && inner != "Bundle" && inner != "Parameters"
+								for _, tc := range []struct {
+									src, want string
+								}{
+									{path + " is " + inner, "[Boolean:true]"}, {path + " is FHIR." + inner, "[Boolean:true]"}, {path + " is Resource", "[Boolean:true]"},
+									{path + " is DomainResource", fmt.Sprintf("[Boolean:%v]", isDomain)}, {path + " is Element", "[Boolean:false]"}, {path + " is BackboneElement", "[Boolean:false]"},
+									{"(" + path + " as " + inner + ").count()", "[Integer:1]"}, {"(" + path + " as Resource).count()", "[Integer:1]"}, {tn + ".contained.where($this is " + inner + ").count() > 0", "[Boolean:true]"},
+									{path + ".children().where($this is " + inner + ").count()", "[Integer:0]"}, {tn + ".children().where($this is " + inner + ").count() > 0", fmt.Sprintf("[Boolean:%v]", true)},
+								} {
+									got := lib.Run(tc.src, []fhir.Resource{res}, nil)
+									r.Eval()
+									r.State("contained-resource|" + inner)
+									r.Nontrivial(tn, fmt.Sprint(vi), tc.src, got.String())
+									if got.String() != tc.want {
+										d := got.Class()
+										if got.Panic != nil {
+											d = got.Panic.Key()
+										}
+										r.Fail("contained-resource|"+strings.SplitN(strings.TrimPrefix(tc.src, "("), " ", 3)[1]+"|"+d, core.W{"src": tc.src, "got": core.Short(got.String(), 200), "want": tc.want, "contained_type": inner})
+									}
+								}
+							}
+						}
 						b := &c02Builder{}
 						root := b.build(tree, res.ProtoReflect(), false)
 						var walk func(n *c02Node, path string, isRoot bool)
@@ -399,6 +441,80 @@ func init() {
 							})
 						}
 						wrappers(res.ProtoReflect(), tn)
+					}
+				}},
+				{Name: "choice-rebinding", N: 2, Note: "one compiled `is` / `as` / where($this is T) per type x {default, Permissive}, evaluated over a sequence of Observations whose value[x] holds a different alternative each time (and components holding all of them): every result equals that of a freshly compiled expression on the same input", Run: func(i int, r *core.Rec) {
+					var copts []fhirpath.CompileOption
+					mode := "default"
+					if i == 1 {
+						copts, mode = []fhirpath.CompileOption{compopts.Permissive()}, "permissive"
+					}
+					mkObs := func(alts ...string) fhir.Resource {
+						val := func(alt string) *opb.Observation_ValueX {
+							switch alt {
+							case "string":
+								return &opb.Observation_ValueX{Choice: &opb.Observation_ValueX_StringValue{StringValue: fhir.String("s")}}
+							case "Quantity":
+								return &opb.Observation_ValueX{Choice: &opb.Observation_ValueX_Quantity{Quantity: &dtpb.Quantity{Value: &dtpb.Decimal{Value: "1"}, Code: fhir.Code("mg")}}}
+							case "integer":
+								return &opb.Observation_ValueX{Choice: &opb.Observation_ValueX_Integer{Integer: fhir.Integer(3)}}
+							case "boolean":
+								return &opb.Observation_ValueX{Choice: &opb.Observation_ValueX_Boolean{Boolean: fhir.Boolean(true)}}
+							}
+							return nil
+						}
+						o := &opb.Observation{Id: fhir.ID("o"), Value: val(alts[0])}
+						for _, a := range alts {
+							cv := val(a)
+							c := &opb.Observation_Component{}
+							switch x := cv.Choice.(type) {
+							case *opb.Observation_ValueX_StringValue:
+								c.Value = &opb.Observation_Component_ValueX{Choice: &opb.Observation_Component_ValueX_StringValue{StringValue: x.StringValue}}
+							case *opb.Observation_ValueX_Quantity:
+								c.Value = &opb.Observation_Component_ValueX{Choice: &opb.Observation_Component_ValueX_Quantity{Quantity: x.Quantity}}
+							case *opb.Observation_ValueX_Integer:
+								c.Value = &opb.Observation_Component_ValueX{Choice: &opb.Observation_Component_ValueX_Integer{Integer: x.Integer}}
+							case *opb.Observation_ValueX_Boolean:
+								c.Value = &opb.Observation_Component_ValueX{Choice: &opb.Observation_Component_ValueX_Boolean{Boolean: x.Boolean}}
+							}
+							o.Component = append(o.Component, c)
+						}
+						return o
+					}
+					alts := []string{"string", "Quantity", "integer", "boolean"}
+					var inputs [][]string
+					for _, a := range alts {
+						for _, b := range alts {
+							inputs = append(inputs, []string{a, b})
+						}
+					}
+					for _, T := range []string{"string", "Quantity", "integer", "boolean", "Element", "System.String", "FHIR.string"} {
+						for _, tmpl := range []string{"Observation.value is %s", "(Observation.value as %s).exists()", "Observation.component.value.select($this is %s)", "Observation.component.value.where($this is %s).count()", "Observation.component.where(value is %s).count()"} {
+							src := fmt.Sprintf(tmpl, T)
+							sharedExpr := lib.Compile(src, copts...)
+							if !sharedExpr.OK() && sharedExpr.CompileErr != nil {
+								continue
+							}
+							var hist []string
+							for _, inAlts := range inputs {
+								in := []fhir.Resource{mkObs(inAlts...)}
+								got := lib.EvalOpts(sharedExpr, in, lib.EnvOpts(nil)...)
+								want := lib.EvalOpts(lib.Compile(src, copts...), in, lib.EnvOpts(nil)...)
+								r.Eval()
+								r.Eval()
+								hist = append(hist, strings.Join(inAlts, "+"))
+								r.State("choice-rebinding|" + mode)
+								r.Nontrivial(mode, src, strings.Join(inAlts, "+"), got.String())
+								if got.Panic != nil {
+									r.Fail("choice-rebinding|"+mode+"|"+got.Panic.Key(), core.W{"src": src})
+									break
+								}
+								if got.String() != want.String() {
+									r.Fail("choice-rebinding|"+mode+"|result-differs-from-fresh-expression", core.W{"src": src, "inputs_so_far(value[x]+components)": hist, "reused_expression": got.String(), "fresh_expression": want.String()})
+									break
+								}
+							}
+						}
 					}
 				}},
 				{Name: "malformed-specifiers", N: 1, Note: "wrong case, unknown namespace, three qualifiers, namespace/type mismatches", Run: func(i int, r *core.Rec) {
